@@ -192,8 +192,14 @@ func (o *Oracle) judgeOktaAnswer(e *Exchange, email string, asked, got []string,
 	sort.Strings(key)
 	k := email + "\x00" + strings.Join(key, "\x00")
 	var ui *Exchange
+	tok := e.ReqHdr.Get("X-Access-Token")
 	for _, x := range l3 {
 		if endpointOf(x.Path) == "userinfo" && during(x) {
+			// the userinfo call made for this question carries the access token the question carried
+			// (while the request is held, other questions' calls fall into its window too)
+			if tok != "" && x.ReqHdr.Get("Authorization") != "Bearer "+tok {
+				continue
+			}
 			ui = x
 		}
 	}
